@@ -406,6 +406,9 @@ func genFTy(r *vh.Rand, scope string, env EnumEnv) (FTy, string) {
 		return t, ""
 	case 11:
 		t := FTy{Kind: TObject, Flatten: r.Chance(40)}
+		if r.Chance(40) {
+			t.Ref = "Baz" // a second object of the compile unit
+		}
 		if r.Chance(35) {
 			or := &ObjRules{Min: smallLen(r), Max: smallLen(r)}
 			if or.Min != nil || or.Max != nil || genAST {
@@ -424,7 +427,11 @@ func genFTy(r *vh.Rand, scope string, env EnumEnv) (FTy, string) {
 			}
 			return t, ""
 		}
-		return FTy{Kind: TOneof, OneofR: genAST && r.Chance(30), List: genLPay(r, false, false)}, ""
+		t := FTy{Kind: TOneof, OneofR: genAST && r.Chance(30), List: genLPay(r, false, false)}
+		if r.Chance(40) {
+			t.Ref = "Pick" // a second oneof of the compile unit
+		}
+		return t, ""
 	}
 	panic("unreachable")
 }
@@ -508,6 +515,12 @@ func genProp(r *vh.Rand, name string, scope string, env EnumEnv) genDecl {
 		// array rules (counts, uniqueness) apply
 		t = FTy{Kind: vh.Pick(r, []TyKind{TFloat, TFloat, TTimestamp, TDate, TDecimal, TAny, TObject, TOneof})}
 		t.F64 = r.Bool()
+		if t.Kind == TObject && r.Bool() {
+			t.Ref = "Baz"
+		}
+		if t.Kind == TOneof && r.Bool() {
+			t.Ref = "Pick"
+		}
 		forceArray = true
 	}
 	p := Prop{Name: name, T: t, Desc: genDesc(r)}
